@@ -77,6 +77,27 @@ def attrs_in(interp, options):
     return check
 
 
+def _cmp_validator(opname, pyop):
+    def make(interp, bound):
+        def check(inst, attr, value):
+            import ast as _ast
+
+            node = {"ge": _ast.GtE(), "le": _ast.LtE(), "gt": _ast.Gt(), "lt": _ast.Lt()}[opname]
+            if not interp.truth(interp.compare(node, value, bound)):
+                raise PyExc("ValueError", ("'%s' must be %s %r" % (getattr(attr, "attrs", {}).get("name", "?"), pyop, bound),))
+
+        check.__pyvc_lib__ = True
+        return check
+
+    make.__pyvc_lib__ = True
+    return make
+
+
+for _n, _o in (("ge", ">="), ("le", "<="), ("gt", ">"), ("lt", "<")):
+    LIB["attrs.validators." + _n] = _cmp_validator(_n, _o)
+    LIB["attr.validators." + _n] = LIB["attrs.validators." + _n]
+
+
 @lib("attrs.asdict", "attr.asdict")
 def attrs_asdict(interp, obj):
     from .interp import Obj
@@ -336,3 +357,6 @@ def nx_bfs_edges(interp, g, source, reverse=False, depth_limit=None, sort_neighb
                 out.append((u, v))
                 queue.append(v)
     return out
+
+
+CONST["omegaconf.MISSING"] = "???"
